@@ -90,6 +90,8 @@ type Frame struct {
 	privAlias  map[ssa.Value]string
 	idx        map[ssa.Value]bool
 	entryVals  map[*ssa.BasicBlock]map[*ssa.Phi]Term
+	dirty      map[string]bool // types whose fields this activation has stored to
+	published  map[ssa.Value]bool
 }
 
 type deferRec struct {
@@ -1125,8 +1127,8 @@ func (f *Frame) refInvariant(t Term, typ types.Type, st *State) {
 	}
 	// inside a function that stores to fields of this type the invariant may
 	// be temporarily broken: it is assumed only in the entry state
-	if e.P.isMutator(f.fn, key) && st != f.entryState() {
-		return
+	if f.dirty[key] {
+		return // this activation has already stored into a field of the type
 	}
 	dk := "inv:" + t.S + ":" + f.stateSig(st, key)
 	if e.names[dk] != 0 {
